@@ -51,13 +51,15 @@ Definition ptr_of (s : state) (v : var) : option obj :=
 
 (** ** ReferenceCounter, reached through CountingPtr's private helpers *)
 
-(** CountingPtr::inc_reference(Type* o): [if (o) o->inc_reference();]   ([++reference_count_]) *)
+(** CountingPtr::inc_reference(Type* o): [if (o) o->inc_reference();]   ([++reference_count_])
+    ([orph] is a ghost: "alive without owner because the no-operation Deleter ran"; an object that gets an owner
+    (again) is no longer in that state) *)
 Definition inc_reference (s : state) (p : option obj) : state :=
   match p with
   | None => s
   | Some o =>
       match nth_error (cells s) o with
-      | Some c => {| cells := upd (cells s) o {| rc := S (rc c); dcount := dcount c; orph := orph c; val := val c |};
+      | Some c => {| cells := upd (cells s) o {| rc := S (rc c); dcount := dcount c; orph := 0; val := val c |};
                      vars := vars s;
                      bad := bad s || (0 <? dcount c) |}
       | None => flag s true
@@ -178,6 +180,13 @@ Definition assign_fresh (s : state) (v : var) (x : nat) : state :=
   let s3 := move_assign s2 v t in
   pop_temp (dtor_k (nodel v) s3 t).                 (* the temporary has the type of *this *)
 
+(** [*this = nullptr]: implicit CountingPtr(nullptr_t) temporary, move-assignment, ~temporary *)
+Definition assign_null (s : state) (v : var) : state :=
+  let t := length (vars s) in
+  let s2 := ctor_nullptr (push_temp s) t in
+  let s3 := move_assign s2 v t in
+  pop_temp (dtor_k (nodel v) s3 t).
+
 (** unify(): [if (ptr_ && !ptr_->unique()) operator=(CountingPtr(new Type( *ptr_)));]
     (the copy of a ReferenceCounter starts at zero; the payload is copied) *)
 Definition unify (s : state) (v : var) : state :=
@@ -211,9 +220,18 @@ Inductive op :=
 | OReset (v : var)
 | OSwap (v w : var)
 | OUnify (v : var)
-| ODestroy (v : var).               (* v.~CountingPtr() *)
+| ODestroy (v : var)                (* v.~CountingPtr() *)
+| OAdopt (v : var) (o : obj)        (* new (&v) CountingPtr(raw pointer to object o): the object may have other handles (a raw
+                                       pointer adopted twice), or none any more (left alive by a no-delete handle) *)
+| OAssignNull (v : var)             (* v = nullptr *)
+| OObjAssign (v w : var).           (* *v = *w : assignment of the counted OBJECTS; ReferenceCounter::operator= leaves both counts alone *)
 
 Definition in_range (s : state) (v : var) : bool := v <? length (vars s).
+(** the object exists and has not been destroyed (a raw pointer to it is valid) *)
+Definition alive (s : state) (o : obj) : bool :=
+  match nth_error (cells s) o with Some c => dcount c =? 0 | None => false end.
+Definition nonnull (s : state) (v : var) : bool :=
+  match ptr_of s v with Some _ => true | None => false end.
 
 (** Lifetime preconditions of the C++ object model (not of CountingPtr): a constructor runs on raw storage,
     everything else on constructed objects.  An operation whose precondition fails is not part of the
@@ -225,7 +243,9 @@ Definition pre (s : state) (o : op) : bool :=
       in_range s v && negb (live s v) && live s w
   | OCopyAssign v w | OConvCopyAssign v w | OMoveAssign v w | OConvMoveAssign v w | OSwap v w =>
       live s v && live s w
-  | OAssignNew v _ | OReset v | OUnify v | ODestroy v => live s v
+  | OAssignNew v _ | OReset v | OUnify v | ODestroy v | OAssignNull v => live s v
+  | OAdopt v o => in_range s v && negb (live s v) && alive s o
+  | OObjAssign v w => live s v && live s w && nonnull s v && nonnull s w
   end.
 
 Definition exec (s : state) (o : op) : state :=
@@ -247,6 +267,9 @@ Definition exec (s : state) (o : op) : state :=
   | OSwap v w => swap s v w
   | OUnify v => unify s v
   | ODestroy v => dtor s v
+  | OAdopt v o => ctor_raw s v (Some o)
+  | OAssignNull v => assign_null s v
+  | OObjAssign _ _ => s
   end.
 
 Definition step (s : state) (o : op) : state * bool :=
